@@ -109,6 +109,9 @@ type inst interface {
 	// two results must be equal.
 	SetRepeat(on bool)
 	Soft() []*harnessViol
+	// Decode unmarshals b as message type typ (for an input share of
+	// aggregator id) and checks the re-marshal identity.
+	Decode(typ string, b []byte, id uint) error
 }
 
 // decodeErr: UnmarshalBinary refused the bytes.
@@ -265,6 +268,28 @@ func errStr(err error) string {
 }
 
 func (a *adapter[P, M, A, AS, IS, OS, PS, ST, PP]) SetRepeat(on bool) { a.repeat = on }
+
+func (a *adapter[P, M, A, AS, IS, OS, PS, ST, PP]) Decode(typ string, b []byte, id uint) (err error) {
+	switch typ {
+	case "PublicShare":
+		_, err = dec[PublicShare](&a.pp, typ, b)
+	case "InputShare":
+		_, err = dec[IS](&a.pp, typ, b, id)
+	case "PrepShare":
+		_, err = dec[PS](&a.pp, typ, b)
+	case "PrepState":
+		_, err = dec[ST](&a.pp, typ, b)
+	case "PrepMessage":
+		_, err = dec[PrepMessage](&a.pp, typ, b)
+	case "OutShare":
+		_, err = dec[OS](&a.pp, typ, b)
+	case "AggShare":
+		_, err = dec[AS](&a.pp, typ, b)
+	default:
+		panic("unknown message type " + typ)
+	}
+	return err
+}
 
 // Soft drains the findings that do not stop the run (the adapter went on
 // with the values taken before the caller's buffers were overwritten).
